@@ -524,20 +524,36 @@ func confirmAll(a *Alphabet, f *found, execs *int64) []Found {
 					}
 				}
 			}
-			if same == 3 {
+			if same == 3 && fe.twin == "" {
 				put(s, fe.what, fe.count, c)
 				continue
 			}
 		}
 		if fe.twin != "" {
-			// a hash comparison with a changing outcome
-			nd := &Case{Alphabet: a.Name, Config: fe.cfg, Ops: a.Strings(fe.seq), Twin: "same-sequence", TwinOps: a.Strings(fe.seq), Step: len(fe.seq) - 1,
-				TwinSig: fmt.Sprintf("C09|hash-not-a-function-of-writes|twin=same-sequence|layer=%s", fe.cfg.Layer())}
-			distinct, runs := repeatRuns(a, fe.cfg, fe.seq, 64)
-			*execs += int64(runs)
-			if distinct > 1 {
-				nd.Note = fmt.Sprintf("%d distinct hash lists in %d executions of this one sequence (found while checking %s)", distinct, runs, s)
-				put(nd.TwinSig, "executions of one and the same operation sequence on fresh stores return different commit hashes", fe.count, nd)
+			// a hash comparison: before blaming the twin transformation make sure each side is a function of
+			// its own sequence. 3 of 3 differing pairs get 16 repetitions of each side, anything else 64.
+			reps := 64
+			if same == 3 {
+				reps = 16
+			}
+			nondet := false
+			for _, side := range [][]uint8{fe.seq, fe.twinSeq} {
+				distinct, runs := repeatRuns(a, fe.cfg, side, reps)
+				*execs += int64(runs)
+				if distinct > 1 {
+					nd := &Case{Alphabet: a.Name, Config: fe.cfg, Ops: a.Strings(side), Twin: "same-sequence", TwinOps: a.Strings(side), Step: len(side) - 1,
+						TwinSig: fmt.Sprintf("C09|hash-not-a-function-of-writes|twin=same-sequence|layer=%s", fe.cfg.Layer())}
+					nd.Note = fmt.Sprintf("%d distinct hash lists in %d executions of this one sequence (found while checking %s)", distinct, runs, s)
+					put(nd.TwinSig, "executions of one and the same operation sequence on fresh stores return different commit hashes", fe.count, nd)
+					nondet = true
+					break
+				}
+			}
+			if nondet {
+				continue
+			}
+			if same == 3 {
+				put(s, fe.what, fe.count, c)
 				continue
 			}
 		}
